@@ -306,6 +306,7 @@ Theorem merged_is_concat fs0 outp ins fs' cp :
     step fixed_cfg (mkW fs' None) (OpenR outp cp) = (mkW fs' (Some h), OUnit) /\
     flookup outp fs' = Some (NDir d) /\
     ident d = all_indexed fs0 ins /\
+    merged_parts fs' outp = Some parts /\ Forall file_ok parts /\ mh_ok outp d parts h /\
     forall sg ops, reads_ok parts ops ->
       map coarse (snd (run fixed_cfg (mkW fs' (Some h)) ops))
       = snd (spec_run (concat_world outp d parts sg cp []) ops).
@@ -341,7 +342,56 @@ Proof.
     destruct (all_indexed fs0 (p0 :: r)); eexists; (split; [reflexivity|]); cbn; repeat split; auto;
       intros i x []. }
   destruct Hopen as (h & Eo & Mh).
-  exists h, d. split; [|split; [exact Ld|split; [exact Hident|]]].
+  exists h, d. split; [|split; [exact Ld|split; [exact Hident|split; [exact Hparts|split; [exact Hwhole|split; [exact Mh|]]]]]].
   - cbn [step w_h w_fs]. now rewrite Ld, Eo.
   - intros sg ops Hr. eapply merged_reads_refine; eauto.
+Qed.
+
+(* ------------------------------------------------------------------------------------------- *)
+(* end to end: a base family and an associated family merged separately, opened together         *)
+(* ------------------------------------------------------------------------------------------- *)
+Lemma merged_parts_local fs fs' p : flookup p fs' = flookup p fs -> merged_parts fs' p = merged_parts fs p.
+Proof. intros E. unfold merged_parts. now rewrite E. Qed.
+
+Lemma merge_result_parts fs0 outp ins fs' :
+  merge_run fixed_cfg fs0 outp ins None = (fs', OUnit) -> merged_parts fs' outp = Some (map (input_file fs0) ins).
+Proof.
+  intros E. apply merge_success in E as (_ & (M & _ & T)).
+  unfold merged_parts. rewrite (Moved_lookup _ _ _ _ _ M), T. unfold final_meta. now apply listed_all.
+Qed.
+
+Theorem merged_families_aligned fs0 outb inb fs1 outa ina fs2 cp :
+  inputs_wf fs0 inb ->
+  merge_run fixed_cfg fs0 outb inb None = (fs1, OUnit) ->
+  merge_run fixed_cfg fs1 outa ina None = (fs2, OUnit) ->
+  outb <> outa -> ~ In outb ina ->
+  let pb := map (input_file fs0) inb in
+  let pa := map (input_file fs1) ina in
+  exists h d,
+    step fixed_cfg (mkW fs2 None) (OpenR outb cp) = (mkW fs2 (Some h), OUnit) /\ mh_ok outb d pb h /\
+    forall h', mh_ok outb d pb h' -> forall i, exists c,
+      step fixed_cfg (mkW fs2 (Some h')) (GetA i [outa]) =
+      (mkW fs2 (Some (set_cache h' c)),
+       match nth_error (concat (map f_items pb)) i, nth_error (concat (map f_items pa)) i with
+       | Some x, Some y => OItemA (tag x) [tag y]       (* the i-th associated record goes with the i-th trajectory *)
+       | _, _ => OErr EIndex
+       end) /\ mh_ok outb d pb (set_cache h' c).
+Proof.
+  intros Wf E1 E2 Nab Nin pb pa.
+  destruct (merged_is_concat fs0 outb inb fs1 cp Wf E1) as (h & d & Eo & Ld & _ & Hpb & Hwb & Mh & _).
+  pose proof (merge_result_parts _ _ _ _ E2) as Hpa. fold pa in Hpa.
+  apply merge_success in E2 as (_ & (M2 & _ & _)).
+  pose proof M2 as (_ & Hother & _).
+  assert (Lb : flookup outb fs2 = flookup outb fs1) by (apply Hother; auto).
+  assert (Hpb2 : merged_parts fs2 outb = Some pb) by (rewrite (merged_parts_local fs1 fs2 outb Lb); exact Hpb).
+  exists h, d. split; [|split; [exact Mh|]].
+  - cbn [step w_h w_fs]. rewrite Lb, Ld. cbn [step w_h w_fs] in Eo. rewrite Ld in Eo.
+    change (open_merged fs2 outb d cp) with (open_merged fs1 outb d cp).
+    destruct (open_merged fs1 outb d cp) as [h0|e]; [|discriminate]. injection Eo as ->. reflexivity.
+  - intros h' Mh' i.
+    destruct (geta_merged fs2 outb d pb Hpb2 Hwb h' i [outa] Mh') as (c & Es & Mc).
+    exists c. split; [|exact Mc]. rewrite Es. f_equal.
+    rewrite (col_values_concat fs2 [outa] [pa] i) by (constructor; [exact Hpa|constructor]).
+    cbn [map sequence]. destruct (nth_error (concat (map f_items pb)) i); auto.
+    destruct (nth_error (concat (map f_items pa)) i); reflexivity.
 Qed.
